@@ -210,6 +210,83 @@ func c09b(c *Ctx) {
 }
 
 func c09c(c *Ctx) {
+	// the lexer: a word immediately followed by a quote names a string type, whatever it spells
+	// (`raw"…"`, `text"…"`: keywords are ordinary prefixes there) — in the identifier arm of
+	// NextToken every value of the token's type other than STRINGTYPE is chosen only when the next
+	// character is not a quote, and STRINGTYPE only when it is
+	if nt := c.Fn("lexer.Lexer.NextToken"); nt != nil {
+		n := 0
+		quoteRe := regexpMust(`^([+-])\(\$0\.ch![A-Za-z0-9@_]*readIdentifier[A-Za-z0-9@_]* == 34\)$`)
+		type retIn struct {
+			fn *ssa.Function
+			r  *ssa.Return
+		}
+		var rets []retIn
+		for _, m := range c.unitOf(nt) { // the arm may live in a helper of NextToken
+			for _, r := range returnsOf(m.fn) {
+				if len(r.Results) == 1 {
+					rets = append(rets, retIn{m.fn, r})
+				}
+			}
+		}
+		for _, ri := range rets {
+			fn, r := ri.fn, ri.r
+			ld, isLd := r.Results[0].(*ssa.UnOp)
+			if !isLd {
+				continue
+			}
+			a, isA := ld.X.(*ssa.Alloc)
+			if !isA {
+				continue
+			}
+			tv := fieldValue(a, "Type", r)
+			lit := fieldValue(a, "Literal", r)
+			if tv == nil || lit == nil || !strings.Contains(c.term(fn, lit), "readIdentifier") {
+				continue
+			}
+			n++
+			ok := true
+			why := ""
+			sawST := false
+			// every value the type can have at the return: each assignment that can be the last
+			// one, opened into its own alternatives
+			var alts []guardedAlt
+			if rs := c.reachingFieldStores(fn, a, "Type", ld); len(rs) > 0 {
+				for _, sa := range rs {
+					for _, ga := range c.resultAlts(fn, sa.val) {
+						ga.must = append(append([]string{}, ga.must...), sa.must...)
+						alts = append(alts, ga)
+					}
+				}
+			} else {
+				alts = c.resultAlts(fn, tv)
+			}
+			for _, alt := range alts {
+				must := append(append([]string{}, alt.must...), c.mustLits(fn, r.Block())...)
+				quote, noQuote := false, false
+				for _, l := range must {
+					if m := quoteRe.FindStringSubmatch(l); m != nil {
+						if m[1] == "+" {
+							quote = true
+						} else {
+							noQuote = true
+						}
+					}
+				}
+				switch {
+				case alt.term == `"STRINGTYPE"`:
+					sawST = true
+					if !quote {
+						ok, why = false, "STRINGTYPE is chosen on a path where the next character is not known to be a quote"
+					}
+				case !noQuote:
+					ok, why = false, "the type "+pretty(alt.term)+" can be chosen although the next character is a quote (guards: "+fmt.Sprint(must)+")"
+				}
+			}
+			c.Check(ok && sawST, "NextToken/identifier-before-quote-is-string-type", c.W.Pos(r.Pos()), "an identifier directly followed by a quote is a STRINGTYPE token whatever it spells", "the identifier arm does not make every word that is directly followed by a quote a STRINGTYPE: "+why)
+		}
+		c.Check(n >= 1, "NextToken/identifier-arm", c.W.FuncPos(nt), "identifier arm found", "cannot find the identifier arm of NextToken (a returned token whose literal comes from readIdentifier)")
+	}
 	if fn := c.Fn("parser.Parser.parseTextStatement"); fn != nil {
 		// Value/StringType come from the same call (both phis merge matching results)
 		var val, typ ssa.Value
@@ -358,9 +435,16 @@ func c09e(c *Ctx) {
 	c.Check(ok, "emitText/every-line-in-order", c.W.Pos(site.call.Pos()), "one directive per element of Split(Value, \"\\n\"), in order", "directive lines print "+pretty(line)+", expected every element of strings.Split(text.Value, \"\\n\") in order")
 	if h := loopHeaders(fn)[site.call.Block()]; h != nil {
 		early := false
-		for b := range loopBody(h) {
+		body := loopBody(h)
+		for b := range body {
 			if _, isRet := b.Instrs[len(b.Instrs)-1].(*ssa.Return); isRet {
 				early = true
+			}
+			// ... or by a break: any way out of the loop that does not start at its head
+			for _, sc := range b.Succs {
+				if b != h && !body[sc] {
+					early = true
+				}
 			}
 		}
 		c.Check(!early, "emitText/no-early-exit", c.W.Pos(site.call.Pos()), "all lines are emitted", "the line loop can be left early")
